@@ -191,7 +191,8 @@ pub fn run_salt(scn: &Scenario, ctx: &mut Ctx) {
                 ctx.t(&format!("{} n={} range {}..={}", op, n, lo, hi));
             }
             "Z.WithLen" => {
-                let want = (st.arg(1) % 24) as usize;
+                // (now and then a length at the edge of the 16-bit CBOR length head)
+                let want = if st.arg(1) % 24 == 23 { [65535usize, 65536, 70000][(st.arg(4) % 3) as usize] } else { (st.arg(1) % 24) as usize };
                 ctx.checked();
                 let via_rng = st.arg(2) % 3;
                 match guarded(|| match via_rng {
@@ -220,7 +221,7 @@ pub fn run_salt(scn: &Scenario, ctx: &mut Ctx) {
                 ctx.t(&format!("Z.WithLen {}", want));
             }
             "Z.InRange" => {
-                let lo_req = (st.arg(1) % 20) as usize;
+                let lo_req = if st.arg(1) % 20 == 19 { 65530 + (st.arg(2) % 12) as usize } else { (st.arg(1) % 20) as usize };
                 let span = if st.arg(2) % 5 == 0 { 0 } else { (st.arg(2) % 40) as usize }; // single-length ranges included
                 ctx.checked();
                 match guarded(|| if st.arg(3) % 2 == 1 { doc.add_salt_in_range_using(&(lo_req..=lo_req + span), &mut ExtremeRng { head: vec![], i: 0, tail: SimRng::new(st.arg(1) ^ 0x1a2b) }) } else { doc.add_salt_in_range(lo_req..=lo_req + span) }) {
@@ -335,10 +336,15 @@ pub fn run_salt(scn: &Scenario, ctx: &mut Ctx) {
                     }
                 }
                 // the envelope form: the assertion being added already carries an assertion of its own, or is obscured
-                let variant = st.arg(3) % 3;
+                let variant = st.arg(3) % 6;
+                let decorated = plain.add_assertion("since", (st.arg(3) % 50) as u32);
                 let pre: Envelope = match variant {
-                    0 => plain.add_assertion("since", (st.arg(3) % 50) as u32),
+                    0 => decorated.clone(),
                     1 => plain.elide(),
+                    // an assertion that carries an assertion of its own and whose core was then obscured
+                    3 => decorated.elide_removing_target(&plain),
+                    4 => decorated.elide_removing_target_with_action(&plain, &ObscureAction::Compress),
+                    5 => decorated.elide_removing_target_with_action(&plain, &ObscureAction::Encrypt(sym_key(2))),
                     _ => plain.clone(),
                 };
                 let own_before = pre.assertions().len();
@@ -532,6 +538,23 @@ pub fn run_expr(scn: &Scenario, ctx: &mut Ctx) {
                             let want = if st.arg(3) % 2 == 0 && digest_of(&val) != digest_of(&val2) { 2 } else { 1 };
                             if objs.len() != want {
                                 ctx.violate("C18.roundtrip", format!("{} parameter values come back instead of {}", objs.len(), want));
+                            }
+                            // the parameter itself comes back as the value it was (read from the predicate of its assertion)
+                            let wanted = make_parameter(st.arg(2));
+                            let back: Vec<Result<Parameter, String>> = rx.assertions().iter().filter_map(|a| a.as_predicate()).map(|pr| pr.extract_subject::<Parameter>().map_err(|e| e.to_string())).collect();
+                            if !back.iter().any(|r| r.as_ref().map(|x| *x == wanted).unwrap_or(false)) {
+                                ctx.violate("C18.roundtrip", format!("the parameter of the expression does not come back from the predicate of its assertion: {:?}", back.iter().map(|r| r.as_ref().map(|x| x.name()).map_err(|e| e.clone())).collect::<Vec<_>>()));
+                            }
+                            // function and parameter travel as URs of their own types
+                            let (fu, pu) = (f.ur_string(), wanted.ur_string());
+                            if !fu.starts_with("ur:function/") || !pu.starts_with("ur:parameter/") {
+                                ctx.violate("C18.roundtrip", format!("a function / parameter is published under the wrong UR type: {} / {}", &fu[..fu.len().min(24)], &pu[..pu.len().min(24)]));
+                            }
+                            if Function::from_ur_string(&fu).ok().as_ref() != Some(&f) || Parameter::from_ur_string(&pu).ok().as_ref() != Some(&wanted) {
+                                ctx.violate("C18.roundtrip", "a function / parameter does not come back from its UR string".to_string());
+                            }
+                            if Function::from_ur_string(&pu).is_ok() || Parameter::from_ur_string(&fu).is_ok() {
+                                ctx.violate("C18.malformed", "a parameter's UR was accepted as a function (or the reverse)".to_string());
                             }
                         }
                         Ok(Err(er)) => ctx.violate("C18.roundtrip", format!("Expression does not parse back: {}", er)),
@@ -1054,6 +1077,11 @@ pub fn run_attach(scn: &Scenario, ctx: &mut Ctx) {
                                         }
                                     }
                                 }
+                                // adding the loaded container to the envelope it came from adds nothing
+                                let again = c.add_to_envelope(rx.clone());
+                                if digest_of(&again) != digest_of(&rx) || again.attachments().map(|l| l.len()).unwrap_or(usize::MAX) != model.len() {
+                                    ctx.violate("C19.all", "adding a container to an envelope that already carries its attachments changes the envelope".to_string());
+                                }
                                 if c.is_empty() != model.is_empty() {
                                     ctx.violate("C19.all", "the container loaded from the envelope is empty although attachments were added".to_string());
                                 }
@@ -1063,6 +1091,21 @@ pub fn run_attach(scn: &Scenario, ctx: &mut Ctx) {
                         }
                     }
                     Err(p) => ctx.violate_sig("C16.no-panic", format!("the Attachments container panicked: {}", p), p),
+                }
+                // validation asked of one assertion directly: a well-formed attachment object is an attachment only under
+                // the 'attachment' predicate
+                if let Some(a) = rx.assertions_with_predicate(known_values::ATTACHMENT).first() {
+                    if let Some(obj) = a.as_object() {
+                        ctx.checked();
+                        if guarded(|| a.validate_attachment().is_ok()) != Ok(true) {
+                            ctx.violate("C19.invalid", "validate_attachment rejects a well-formed attachment assertion".to_string());
+                        }
+                        for (what, wrong) in [("the text \"attachment\"", Envelope::new_assertion("attachment", obj.clone())), ("'note'", Envelope::new_assertion(known_values::NOTE, obj.clone())), ("'vendor'", Envelope::new_assertion(known_values::VENDOR, obj.clone()))] {
+                            if guarded(|| wrong.validate_attachment().is_ok()) == Ok(true) {
+                                ctx.violate("C19.invalid", format!("validate_attachment accepts an attachment object under the predicate {}", what));
+                            }
+                        }
+                    }
                 }
                 // every filter combination
                 let mut fr = SimRng::new(st.arg(2) ^ 0xf117e5);
